@@ -9,19 +9,21 @@ spelling, staff; tie flags.  Engine A with the element-tree model (no lxml, no b
 """
 import inspect
 
-from engine.hdef import H
+from engine.hdef import H, exclude_known
 from engine.sym import check, must_not_raise, require
 
 STEPS = "CDEFGAB"
 
 
-def interpret(elements, start_pos):
+def interpret(elements, start_pos, on_divisions=None):
     """independent MusicXML position bookkeeping: returns [(onset, duration, step, alter, octave, voice, staff, grace, tie_start, tie_stop, rest)]"""
     out = []
     pos = start_pos
     last_onset = start_pos
     for el in elements:
         tag = el.tag
+        if tag == "attributes" and el.find("divisions") is not None and on_divisions is not None:
+            on_divisions(pos, int(el.find("divisions").text))
         if tag == "backup":
             pos = pos - int(el.find("duration").text)
         elif tag == "forward":
@@ -94,6 +96,22 @@ def make_measure(shape, q=4, pin_pitch=True):
             g = S.GraceNote("acciaccatura", "B", 4, -1, id="g", voice=v_b, staff=st_b, symbolic_duration={"type": "eighth"})
             part.add(g, on_b, on_b)
             notes.append(g)
+        t_w = None
+        if shape == "direction":
+            # a dynamics mark inside the measure (non-note elements are merged into the first voice)
+            t_w = on_b + 1
+            require(t_w < bar)
+            part.add(S.Words("dolce", staff=1), t_w)
+            part.add(S.DynamicLoudnessDirection("p", staff=1) if hasattr(S, "DynamicLoudnessDirection") else S.Words("p", staff=1), on_a + 1) if on_a + 1 < bar else None
+        seen_div = []
+        if shape == "divchange":
+            # divisions double at the half bar; notes do not cross the change
+            half = bar // 2
+            require(on_a + d_a <= half)
+            require(on_b >= half)
+            exclude_known("KF-C03-gap-before-divisions-change", on_a + d_a != half)
+            part.set_quarter_duration(half, 2 * q)
+            # (timeline ticks after the change are half as long: b keeps its tick values)
         if shape in ("rest_tie", "all"):
             r = S.Rest(id="r", voice=1, staff=1, symbolic_duration=dict(sd))
             part.add(r, 0, 1)
@@ -101,7 +119,12 @@ def make_measure(shape, q=4, pin_pitch=True):
             b.tie_next = S.Note("F", 3, alt_b, id="b2", voice=v_b, staff=st_b)
         state = {"note_id_counter": {}, "range_counter": {}}
         els = must_not_raise(EX.linearize_measure_contents, part, m.start, m.end, state, _what="linearize_measure_contents")
-        got, end_pos = interpret(els, 0)
+        got, end_pos = interpret(els, 0, (lambda pos, d: seen_div.append((pos, d))))
+        if shape == "divchange":
+            check(any(d == 2 * q for (_, d) in seen_div), "the divisions change is not written", seen_div)
+            for (posd, d) in seen_div:
+                if d == 2 * q:
+                    check(posd == bar // 2, "the divisions change is written at another position than where it applies", posd, bar // 2)
         check(len(got) == len(notes), "number of note elements", len(got), len(notes))
         for n in notes:
             hits = [e for e in got if e["id"] == n.id]
@@ -132,7 +155,7 @@ def make_measure(shape, q=4, pin_pitch=True):
 
 
 def _inst(tier):
-    shapes = ["plain", "chord", "chord_uneq", "grace", "rest_tie"] + (["all"] if tier != "quick" else [])
+    shapes = ["plain", "chord", "chord_uneq", "grace", "rest_tie", "direction", "divchange"] + (["all"] if tier != "quick" else [])
     out = [{"shape": s} for s in shapes]
     if tier != "quick":
         out += [{"shape": "plain", "pin_pitch": False}, {"shape": "chord", "q": 6}]
@@ -147,7 +170,8 @@ HARNESSES = [
                  "make_note_el", "do_note", "add_chord_tags", "forward_backup_if_needed", "merge_with_voice", "merge_measure_contents",
                  "do_attributes", "do_directions", "do_barlines", "do_harmony", "do_prints"],
       bounds="one 4/4 measure, divisions 4; two notes with symbolic onset/duration, symbolic octave / alteration / voice (1..2) / "
-             "staff (1..2); optional chord member, chord member of other duration, grace note, rest and tie flag per shape; "
+             "staff (1..2); optional chord member, chord member of other duration, grace note, rest and tie flag, words/dynamics "
+             "inside the measure, a mid-measure divisions change (notes not crossing it) per shape; "
              "symbolic durations given (the estimator is C11's)",
       outside="load_musicxml, serialisation to bytes and the re-export fixpoint, part lists / groups, directions, slurs, tuplets, "
               "mid-measure division changes, several measures"),
